@@ -15,10 +15,17 @@ RULE = (
     "receive_primitive+reactor step, receive_primitive with chunked C-STORE receive, send_c_get SCU path, send_c_move SCU "
     "path} is enumerated; Hypothesis adds random layouts (random subsets of SOP classes on random distinct odd IDs, random "
     "rejected IDs, 4 transfer syntaxes, fragmenting maximum PDU sizes). Recording handlers are bound to all 11 DIMSE "
-    "intervention events. Non-trivial = the ID is not accepted although the request's SOP class is accepted on another ID; "
-    "distinct = distinct (layout, path, type, ID)."
+    "intervention events. 'Negotiated' family: the accepted set is not planted but derived by pynetdicom's own "
+    "ACSE._negotiate_as_requestor from a scripted A-ASSOCIATE-AC (per proposed ID: accept / reject with result 1-4 / omit; "
+    "unsolicited IDs), enumerated over 12 types x IDs x {_serve_request, receive_primitive} for a fixed script and drawn at "
+    "random by Hypothesis. Non-trivial = the ID is not accepted although the request's SOP class is accepted on another ID, "
+    "or the ID was proposed and the peer's AC rejected or omitted it; distinct = distinct (layout, answers, path, type, ID)."
 )
 ASSUMPTIONS = [
+    "negotiated family: a proposed context the A-ASSOCIATE-AC does not answer at all is not accepted (PS3.8 7.1.1.13: the "
+    "result list has one entry per proposed context; pynetdicom documents missing ones as rejected), and an AC entry for "
+    "an ID that was never proposed accepts nothing; the first proposed context is always accepted so that the "
+    "association is established",
     "'answered as if it were valid' = a DIMSE response whose status is not Failure-class; a refusal (Failure status, e.g. "
     "0x0122) or an A-ABORT is accepted, as is an exception/Evt19 raised while receiving (attributed to C02/C05)",
     "a request on an ACCEPTED context ID whose abstract syntax differs from the request's SOP class is outside C19",
@@ -55,19 +62,27 @@ def check_ctx(ctx, case):
     sop = G.CTX_SOP[rtype]
     elsewhere = sop is not None and any(G.CTX_SOP[rt] == sop and i != cid for rt, i, _ in case["layout"])
     rsps = [m for k, m in obs.wire if k == "dimse" and (m.error or m.is_response)]
-    cls = [f"path:{path}", rtype]
+    cls = [f"path:{path}", rtype] + (["accepted-set:negotiated-from-ac"] if case.get("answers") else [])
+    negotiated_away = False
     if accepted:
         cls.append("id:accepted")
         cls.append("accepted:" + ("served" if obs.log.calls else "not-served"))
     else:
         cls.append("id:unaccepted")
-        cls.append("id:rejected" if cid in (case.get("rejected") or []) else ("id:even" if cid % 2 == 0 else "id:never-proposed"))
+        ans = {int(k): v for k, v in (case.get("answers") or {}).items()}
+        if cid in ans and ans[cid] != 0:
+            cls.append("id:omitted-by-ac" if ans[cid] == "omit" else f"id:rejected-by-ac:{ans[cid]}")
+            negotiated_away = True
+        elif any(cid == i for i, _ in case.get("unsolicited") or []):
+            cls.append("id:unsolicited-in-ac")
+        else:
+            cls.append("id:rejected" if cid in (case.get("rejected") or []) else ("id:even" if cid % 2 == 0 else "id:never-proposed"))
         if elsewhere:
             cls.append("sop-class-accepted-on-other-id")
         cls.append("outcome:" + ("abort" if obs.aborted_locally else ("raised" if obs.raised is not None else ("response" if rsps else "ignored"))))
     if obs.raised is not None:
         cls.append("raised:" + sig.exc_key(obs.raised))
-    ctx.note(case, nontrivial=(not accepted) and elsewhere, classes=cls)
+    ctx.note(case, nontrivial=(not accepted) and (elsewhere or negotiated_away), classes=cls)
     if accepted:
         return
     txt = (
@@ -75,12 +90,13 @@ def check_ctx(ctx, case):
         f"responses: {[(hex(m.field or 0), None if m.status is None else hex(m.status), sorted(set(m.cx_ids))) for m in rsps]}; "
         f"abort={obs.aborted_locally}"
     )
+    grp = ("requestor-negotiated:" if case.get("answers") else "") + pgroup(path)
     if obs.log.calls:
-        ctx.fail("handler-invoked", f"{pgroup(path)}:{rtype}", "a service handler ran for a request on an unaccepted context ID\n" + txt)
+        ctx.fail("handler-invoked", f"{grp}:{rtype}", "a service handler ran for a request on an unaccepted context ID\n" + txt)
         return
     valid = [m for m in rsps if m.error or m.status is None or R.category(m.status) != "Failure"]
     if valid:
-        ctx.fail("answered-as-valid", f"{pgroup(path)}:{rtype}", "a non-failure response was sent for a request on an unaccepted context ID\n" + txt)
+        ctx.fail("answered-as-valid", f"{grp}:{rtype}", "a non-failure response was sent for a request on an unaccepted context ID\n" + txt)
 
 
 CHECKS = {"ctx": check_ctx}
@@ -106,6 +122,23 @@ def _enumerate(ctx, names, paths, only=None):
                     yield dict(lay, path=path, rtype=rtype, cid=cid)
 
 
+# The peer's A-ASSOCIATE-AC for the dense layout: what each proposed ID is answered with (everything else is accepted)
+NEG_ANSWERS = {"3": "omit", "5": 1, "7": 2, "9": 3, "11": 4, "13": "omit", "21": "omit"}
+NEG_UNSOLICITED = [[101, 0], [23, 0]]
+
+
+def _enumerate_negotiated(ctx, paths, cids):
+    lay = LAYOUTS["dense"]
+    k = 0
+    for path in paths:
+        for rtype in G.RTYPES:
+            for cid in cids:
+                k += 1
+                if k % ctx.nshards != ctx.shard:
+                    continue
+                yield dict(layout=lay["layout"], rejected=[], answers=NEG_ANSWERS, unsolicited=NEG_UNSOLICITED, path=path, rtype=rtype, cid=cid)
+
+
 def run(ctx):
     from hypothesis import strategies as st
 
@@ -114,6 +147,10 @@ def run(ctx):
         ctx.each("ctx", _enumerate(ctx, ["sparse", "multi-store"], G.PATHS, only=("C-STORE",)))
     else:
         ctx.each("ctx", _enumerate(ctx, ["dense", "sparse", "multi-store"], G.PATHS))
+    # accepted set derived by the real requestor-side negotiation from a scripted A-ASSOCIATE-AC (accept / reject 1-4 /
+    # omit / unsolicited IDs): the IDs around the layout at the quick tier, all 256 at the thorough tier
+    near = sorted({(i + d) % 256 for _, i, _ in LAYOUTS["dense"]["layout"] for d in (-1, 0, 1)} | {0, 23, 101, 255})
+    ctx.each("ctx", _enumerate_negotiated(ctx, ["serve", "recv"], near if ctx.quick else range(256)))
     ctx.exhaustive = True
     ctx.extra["exhaustive_over"] = (
         "context IDs 0..255 x 12 request types x 5 paths for the dense layout; quick tier: C-STORE only for the sparse and "
@@ -130,11 +167,23 @@ def run(ctx):
         layout = [[rt, i, draw(st.sampled_from(sorted(G.TS)))] for rt, i in zip(rts, ids)]
         rejected = draw(st.lists(odd.filter(lambda x: x not in ids), max_size=3, unique=True))
         cid = draw(st.one_of(st.integers(0, 255), st.sampled_from(ids), st.sampled_from(ids).map(lambda i: (i + 1) % 256), st.sampled_from(rejected) if rejected else st.just(0)))
+        extra = {}
+        if draw(st.integers(0, 2)) == 0:
+            # the accepted set comes out of the real requestor negotiation; the first context is always accepted
+            # (an association without any accepted context is aborted by the requestor)
+            ans = {str(i): draw(st.sampled_from(["omit", "omit", 0, 1, 2, 3, 4])) for i in ids[1:]}
+            uns = [[i, draw(st.sampled_from([0, 0, 3]))] for i in rejected]
+            lost = [int(i) for i, v in ans.items() if v != 0]
+            extra = {"answers": ans, "unsolicited": uns}
+            rejected = []
+            if lost:
+                cid = draw(st.one_of(st.sampled_from(lost), st.just(cid)))
         return {
+            **extra,
             "layout": layout,
             "rejected": rejected,
             # (Hypothesis favours the first element: put the interesting path/type there)
-            "path": draw(st.sampled_from(["cget-scu", "recv", "serve", "recv-chunked", "cmove-scu"])),
+            "path": draw(st.sampled_from(["cget-scu", "recv", "serve", "recv-chunked", "cmove-scu"])) if not extra else draw(st.sampled_from(["serve", "recv", "cget-scu", "cmove-scu"])),
             "rtype": draw(st.sampled_from(["C-STORE", "C-STORE"] + [r for r in G.RTYPES if r != "C-CANCEL"] + ["C-CANCEL"])),
             "cid": cid,
             "max_pdu": draw(st.sampled_from([16382, 16382, 0, 64, 30, 13])),
